@@ -418,4 +418,14 @@ def NArr.popFields (c : PCol α) (fields : List String) : R (PCol α) := do
     structFromArrays (s.kids.filter fun k => ¬ fs.contains k.name) (some s.valid)
   pure { ty := c.ty.filter fun p => ¬ fs.contains p.1, chunks := chunks }
 
+/-- `count_nested(df, nested)` without `by` (utils/utils.py): per row the length of the FIRST field's list in the list
+    view (`to_lists()`), 0 where that list is null. -/
+def NArr.countRecords (c : PCol α) : R (List Nat) := do
+  let names ← NArr.fieldNames c
+  match names with
+  | [] => throw .indexError
+  | f0 :: _ => do
+    let ls ← NArr.iterFieldLists c f0
+    pure (ls.map fun o => (o.map List.length).getD 0)
+
 end NP
